@@ -710,6 +710,10 @@ pub fn menu(ty: &Ty, id: usize, side: Side) -> Vec<V> {
             let mut v = lens_text(&[8, 0, 1, n - 1, n]);
             v.push(V::t(&fill_wide(n, 2)));
             v.extend(content_texts(n));
+            // exactly at capacity with a blank at either end (nothing to cut, nothing to trim)
+            v.push(V::t(&format!("{} ", "e".repeat(n - 1))));
+            v.push(V::t(&format!("{}\u{3000}", "e".repeat(n - 3))));
+            v.push(V::t(&format!(" {}", "e".repeat(n - 1))));
             if req {
                 v.extend(lens_text(&[n + 1, 200]));
                 v.push(V::t(&fill_wide(n + 2, 3)));
@@ -719,6 +723,8 @@ pub fn menu(ty: &Ty, id: usize, side: Side) -> Vec<V> {
                 for pad in 1..=3usize {
                     v.push(V::t(&format!("{}{}", "p".repeat(pad), fill_wide(n + 4, 4))));
                 }
+                // ... and of the last plane (lead byte F4), starting at n-3
+                v.push(V::t(&format!("p{}", "\u{10ffff}".repeat(n / 4 + 1))));
             }
             v
         }
